@@ -289,7 +289,21 @@ fn variant_struct_name(goenv: &GlobalGoEnv, enum_name: &str, variant_name: &str)
         || goenv
             .structs()
             .any(|(name, _)| go_ident(&name.0) == go_name);
-    if count > 1 || names_a_type {
+    // Functions and extern type aliases are declared in the same Go package block
+    // (`fn Circle()` in Main next to a variant `Circle` of an imported enum).
+    let names_another_item = goenv
+        .genv
+        .value_env
+        .funcs
+        .keys()
+        .any(|name| go_ident(name) == go_name)
+        || goenv
+            .genv
+            .type_env
+            .extern_types
+            .keys()
+            .any(|name| go_ident(name) == go_name);
+    if count > 1 || names_a_type || names_another_item {
         format!("{}_{}", go_ident(enum_name), go_name)
     } else {
         go_name
